@@ -16,6 +16,8 @@ import (
 var c04Sinks = []string{"lock", "lock", "open", "openfile", "open2", "combine", "bws", "bws", "bwslock", "bwsopen"}
 var c04Encs = []string{"json", "json", "console", "json2"}
 var c04Fes = []string{"plain", "plain", "log", "check", "sugarw", "sugarf", "sugarln", "std", "grpc", "zapio", "zapiosync", "slog", "corewrite"}
+var c04Poisons = []string{"reflect", "any", "reflectnest", "marshalerr", "stringer", "error"}
+var c04PoisonFes = []string{"plain", "log", "check", "sugarw", "corewrite", "slog"}
 var c04Flavours = []string{"with", "withlazy", "withlazycap", "sugarlazy", "sugarwith", "named", "withopts", "roundtrip"}
 var c04Tmpls = []string{"", "with", "lazy", "sugarlazy", "lazylazy"}
 var c04BufSizes = []int{64, 128, 256, 512, 1024, 0}
@@ -37,6 +39,11 @@ func c04GenAct(r *Rand, cfg *c04Cfg, big bool) c04Act {
 	case x < 74:
 		fe := Pick(r, c04Fes)
 		a := c04Act{A: "log", Fe: fe, Lvl: Pick(r, c04FeLevels(fe))}
+		if r.Chance(1, 25) { // an entry with a field whose encoding fails inside zap
+			a.Fe = Pick(r, c04PoisonFes)
+			a.Lvl = Pick(r, c04FeLevels(a.Fe))
+			a.P = Pick(r, c04Poisons)
+		}
 		// message sizes around the buffer size of some buffered branch (a JSON line is ≈ 70 bytes + message)
 		size := 256
 		for _, b := range cfg.Br {
@@ -97,6 +104,27 @@ func c04GenCfg(r *Rand) c04Cfg {
 	for i := 0; i < nb; i++ {
 		cfg.Br = append(cfg.Br, c04Branch{Sink: Pick(r, c04Sinks), Size: Pick(r, c04BufSizes), Enc: Pick(r, c04Encs),
 			Min: Pick(r, []int{-1, -1, -1, 0, 1})})
+	}
+	// several loggers from one configuration (own sinks / one shared core slice / zap.Config.Build), the same URL opened
+	// more than once, switched-off outputs in the core list
+	switch r.Intn(12) {
+	case 0, 1:
+		cfg.Loggers = 2 + r.Intn(2)
+		cfg.Br[r.Intn(nb)].Sink = "reopen"
+	case 2, 3:
+		cfg.Loggers, cfg.Share = 2+r.Intn(2), true
+	case 4:
+		cfg.Loggers, cfg.Via = 2+r.Intn(2), "config"
+	case 5:
+		if nb >= 2 {
+			cfg.Br[0].Sink, cfg.Br[1].Sink = "reopen", "reopen"
+		}
+	}
+	if r.Chance(1, 4) {
+		cfg.Nops = []int{}
+		for n := 1 + r.Intn(2); n > 0; n-- {
+			cfg.Nops = append(cfg.Nops, r.Intn(nb+2))
+		}
 	}
 	return cfg
 }
@@ -205,6 +233,76 @@ func c04Gen(r *Rand, tier string, emit func(op any)) {
 				acts = append(acts, c04Act{A: "log", Fe: "plain", Lvl: 0, Sz: 3}, c04Act{A: "log", Fe: "sugarw", Lvl: 1, Sz: 9})
 				acts = append(acts, c04Act{A: "derive", Fe: fl, Child: 0})
 				acts = append(acts, c04Act{A: "log", Fe: "log", Lvl: 2, Sz: 1}, c04Act{A: "log", Fe: "std", Lvl: 0, Sz: 2})
+				op.Gs[gi] = acts
+			}
+			emit(op)
+		}
+	}
+	// grid 4: every goroutine first logs entries whose extra field fails to encode (failing reflection, failing
+	// marshaler, panicking Stringer / error), then all of them encode at once for a while
+	for pi, poison := range c04Poisons {
+		for _, g := range []int{4, 8} {
+			cfg := c04Cfg{Br: []c04Branch{{Sink: "lock", Enc: "json", Min: -1}, {Sink: []string{"combine", "bws", "lock"}[pi%3], Size: 512, Enc: []string{"json2", "console"}[pi%2], Min: -1}},
+				Gomax: []int{8, 16}[pi%2], Gosched: 1 + pi%3, SafeRec: pi%2 == 0}
+			op := c04Prog{K: "prog", Cfg: cfg, Gs: make([][]c04Act, g)}
+			for gi := range op.Gs {
+				acts := []c04Act{}
+				for k := 0; k < 2; k++ {
+					acts = append(acts, c04Act{A: "log", Fe: c04PoisonFes[(pi+gi+k)%len(c04PoisonFes)], Lvl: k, Sz: 4 * k, P: poison})
+				}
+				for k := 0; k < 30; k++ {
+					acts = append(acts, c04Act{A: "log", Fe: []string{"plain", "sugarw", "check"}[k%3], Lvl: k % 3, Sz: (k * 13) % 120})
+					if k == 12+gi {
+						acts = append(acts, c04Act{A: "log", Fe: "log", Lvl: 1, Sz: 7, P: c04Poisons[(pi+1)%len(c04Poisons)]})
+					}
+				}
+				op.Gs[gi] = acts
+			}
+			emit(op)
+		}
+	}
+	// grid 5: one registered-scheme URL opened more than once (the factory returns a fresh recorder per call): two
+	// branches of one tee; two / three separately built loggers (each alone, or next to a Lock(sink) branch); loggers
+	// from zap.Config.Build — every recorder must hold exactly the lines of its own logger and branch
+	for i, cfg := range []c04Cfg{
+		{Br: []c04Branch{{Sink: "reopen", Enc: "json", Min: -1}, {Sink: "reopen", Enc: "json2", Min: 0}}},
+		{Br: []c04Branch{{Sink: "reopen", Enc: "json", Min: -1}, {Sink: "reopen", Enc: "console", Min: -1}, {Sink: "lock", Enc: "json", Min: -1}}},
+		{Br: []c04Branch{{Sink: "reopen", Enc: "json", Min: -1}}, Loggers: 2},
+		{Br: []c04Branch{{Sink: "reopen", Enc: "json2", Min: 0}, {Sink: "lock", Enc: "json", Min: -1}}, Loggers: 2},
+		{Br: []c04Branch{{Sink: "reopen", Enc: "console", Min: -1}}, Loggers: 3},
+		{Br: []c04Branch{{Sink: "reopen", Enc: "json", Min: -1}}, Loggers: 2, Via: "config"},
+		{Br: []c04Branch{{Sink: "reopen", Enc: "json2", Min: 0}}, Loggers: 3, Via: "config", Caller: true},
+		{Br: []c04Branch{{Sink: "reopen", Enc: "console", Min: -1}}, Loggers: 2, Via: "config", Sampler: true},
+	} {
+		for _, safe := range []bool{false, true} {
+			cfg.Gomax, cfg.Gosched, cfg.SafeRec, cfg.Children = 8, 1+i%2, safe, 1
+			g := []int{4, 6, 8}[i%3]
+			op := c04Prog{K: "prog", Cfg: cfg, Gs: make([][]c04Act, g)}
+			for gi := range op.Gs {
+				acts := []c04Act{}
+				for k := 0; k < 24; k++ {
+					acts = append(acts, c04Act{A: "log", Fe: []string{"plain", "sugarw", "check", "std"}[(k+gi)%4], Lvl: k % 3, Sz: (k * 17) % 200})
+					if k == 8 {
+						acts = append(acts, c04Act{A: "child", Child: 0})
+					}
+				}
+				op.Gs[gi] = acts
+			}
+			emit(op)
+		}
+	}
+	// grid 6: the tees of two / three loggers are built from ONE caller-owned core slice that contains switched-off
+	// (no-op) cores at various positions
+	for i, nops := range [][]int{{0}, {1}, {2}, {0, 2}, {1, 1}, {0, 1, 3}, {}} {
+		for _, loggers := range []int{2, 3} {
+			cfg := c04Cfg{Br: []c04Branch{{Sink: "lock", Enc: "json", Min: -1}, {Sink: []string{"bws", "combine", "open"}[i%3], Size: 256, Enc: "json2", Min: -1}},
+				Gomax: 8, Gosched: 2, SafeRec: i%2 == 0, Loggers: loggers, Share: true, Nops: nops}
+			op := c04Prog{K: "prog", Cfg: cfg, Gs: make([][]c04Act, 2*loggers)}
+			for gi := range op.Gs {
+				acts := []c04Act{}
+				for k := 0; k < 12; k++ {
+					acts = append(acts, c04Act{A: "log", Fe: []string{"plain", "sugarw", "check"}[(k+gi)%3], Lvl: k % 3, Sz: (k * 11) % 90})
+				}
 				op.Gs[gi] = acts
 			}
 			emit(op)
